@@ -137,7 +137,8 @@ class FutureBase(object):
         # like to maintain their normal behavior), so these could still leave the scheduler in a
         # bad state if the process continues to run afterwards
         except Exception as e:
-            print("exception ignored in asynq on_computed callback: %s" % repr(e))
+            # (debug.repr: a user exception whose __repr__ raises must not escape from here)
+            print("exception ignored in asynq on_computed callback: %s" % debug.repr(e))
             traceback.print_exc()
 
     def _compute(self):
